@@ -1,6 +1,7 @@
 (* C09 property theorems (UintVecMin0).  Statements + exact + Print Assumptions only. *)
 From ZV.Common Require Import Base Run.
 From ZV.C09 Require Import Model ProofsBits ProofsVec ModelSorted Cases ProofsSorted ProofsZip.
+From ZV.C09 Require Import ModelIntVec ProofsIntVecBits ProofsIntVecPack ProofsIntVecGet ProofsIntVecAnalysis ProofsIntVecTop.
 Open Scope N_scope.
 
 (* a field of any supported width never straddles the 64-bit load window *)
@@ -108,3 +109,88 @@ Theorem sorted_uint_vec_build_only_if :
     cfg_valid c = true /\ push_all_sorted None vals = true /\ deltas_fit c vals /\ (sw c < 64 -> samples_fit c vals).
 Proof. exact sbuild_only_if. Qed.
 Print Assumptions sorted_uint_vec_build_only_if.
+
+(* ---------- IntVec<T> (strategy analysis, four encodings, signed mapping, three constructors) ---------- *)
+(* both bit writers OR the masked value in at the bit offset, whichever of their paths they take (window
+   read-modify-write, unaligned 8-byte read-modify-write, bit by bit), for every width 1..64 and every offset
+   whose field lies inside the buffer *)
+Theorem intvec_write_bits :
+  forall d v off w, 1 <= w <= 64 -> off + w <= 8 * blen d ->
+    write_bits d v off w = IOk (orv d (N.land v (N.ones w)) off) /\
+    write_bits_bulk d v off w = IOk (orv d (N.land v (N.ones w)) off).
+Proof. intros d v off w H1 H2. split; [apply write_bits_spec|apply write_bits_bulk_spec]; assumption. Qed.
+Check intvec_write_bits :
+  forall d v off w, 1 <= w <= 64 -> off + w <= 8 * blen d ->
+    write_bits d v off w = IOk (orv d (N.land v (N.ones w)) off) /\
+    write_bits_bulk d v off w = IOk (orv d (N.land v (N.ones w)) off).
+Print Assumptions intvec_write_bits.
+
+(* the bit reader returns the field for every width 1..64 at every offset inside the buffer: the 8-byte window
+   suffices for fields of at most 58 bits at multiples of their width, wider fields that start inside a byte are
+   completed from the ninth byte (the repaired read) *)
+Theorem intvec_read_bits :
+  (forall d off w, 1 <= w <= 64 -> off + w <= 8 * blen d -> read_bits d off w = IOk (field (bmem d) off w)) /\
+  (forall w k, w <= 58 -> (w * k) mod 8 + w <= 64) /\
+  (59 * 5) mod 8 + 59 > 64.
+Proof. split; [exact read_bits_spec|]. split; [exact window_suffices|exact ninth_byte_needed]. Qed.
+Check intvec_read_bits :
+  (forall d off w, 1 <= w <= 64 -> off + w <= 8 * blen d -> read_bits d off w = IOk (field (bmem d) off w)) /\
+  (forall w k, w <= 58 -> (w * k) mod 8 + w <= 64) /\
+  (59 * 5) mod 8 + 59 > 64.
+Print Assumptions intvec_read_bits.
+
+(* whatever strategy is used - raw, min-max, block based (any block size, with a short last block), delta, uniform
+   delta - with parameters that cover the input, on either compression path (compress_with_strategy /
+   compress_with_bulk_strategy_simd), for each of the eight element types: the build succeeds, the length is kept,
+   element i reads back as the stored value (sign included), reads past the end return None *)
+Theorem intvec_any_strategy :
+  forall (simd : bool) t s xs, ety_ok t -> Forall (in_ty t) xs -> covers s (map to_u64 xs) ->
+    exists v, iv_build simd s (map to_u64 xs) = IOk v /\ ilen v = nlen xs /\
+      (forall i, (i < length xs)%nat -> iv_get t v (N.of_nat i) = IOk (Some (nth i xs 0%Z))) /\
+      (forall i, nlen xs <= i -> iv_get t v i = IOk None).
+Proof. exact intvec_any_strategy_proof. Qed.
+Check intvec_any_strategy :
+  forall (simd : bool) t s xs, ety_ok t -> Forall (in_ty t) xs -> covers s (map to_u64 xs) ->
+    exists v, iv_build simd s (map to_u64 xs) = IOk v /\ ilen v = nlen xs /\
+      (forall i, (i < length xs)%nat -> iv_get t v (N.of_nat i) = IOk (Some (nth i xs 0%Z))) /\
+      (forall i, nlen xs <= i -> iv_get t v i = IOk None).
+Print Assumptions intvec_any_strategy.
+
+(* the widths the analyses compute are sufficient for every element: the global range (min-max), the per-block
+   maximum offset and the largest block minimum (block based, short last block included), the maximum adjacent
+   delta, the uniform delta; for the small-dataset analysis, the fast analysis and the full analysis whatever its
+   floating-point ratio comparison answers *)
+Theorem intvec_analysis_widths_cover :
+  forall vals, Forall (fun v => v < W64) vals ->
+    covers (analyze_small_dataset_strategy vals) vals /\
+    covers (analyze_fast_strategy vals) vals /\
+    (forall ratio_cmp, covers (analyze_optimal_strategy ratio_cmp vals) vals) /\
+    (vals <> [] -> covers (analyze_min_max (fst (range_bulk vals)) (snd (range_bulk vals))) vals) /\
+    (forall srt, covers (analyze_block_based vals srt) vals) /\
+    covers (analyze_delta vals) vals /\
+    (forall ud dw, detect_uniform_delta vals = Some ud -> covers (SDelta (hd 0 vals) dw true (Some ud)) vals).
+Proof. exact intvec_analysis_widths_cover_proof. Qed.
+Check intvec_analysis_widths_cover :
+  forall vals, Forall (fun v => v < W64) vals ->
+    covers (analyze_small_dataset_strategy vals) vals /\
+    covers (analyze_fast_strategy vals) vals /\
+    (forall ratio_cmp, covers (analyze_optimal_strategy ratio_cmp vals) vals) /\
+    (vals <> [] -> covers (analyze_min_max (fst (range_bulk vals)) (snd (range_bulk vals))) vals) /\
+    (forall srt, covers (analyze_block_based vals srt) vals) /\
+    covers (analyze_delta vals) vals /\
+    (forall ud dw, detect_uniform_delta vals = Some ud -> covers (SDelta (hd 0 vals) dw true (Some ud)) vals).
+Print Assumptions intvec_analysis_widths_cover.
+
+(* from_slice / from_slice_bulk / from_slice_bulk_simd (ctor 0 / 1 / 2) for every element type and every input *)
+Theorem intvec_construct_get :
+  forall ctor ratio_cmp t xs, ety_ok t -> Forall (in_ty t) xs ->
+    exists v, iv_construct ctor ratio_cmp t xs = IOk v /\ ilen v = nlen xs /\
+      (forall i, (i < length xs)%nat -> iv_get t v (N.of_nat i) = IOk (Some (nth i xs 0%Z))) /\
+      (forall i, nlen xs <= i -> iv_get t v i = IOk None).
+Proof. exact intvec_construct_get_proof. Qed.
+Check intvec_construct_get :
+  forall ctor ratio_cmp t xs, ety_ok t -> Forall (in_ty t) xs ->
+    exists v, iv_construct ctor ratio_cmp t xs = IOk v /\ ilen v = nlen xs /\
+      (forall i, (i < length xs)%nat -> iv_get t v (N.of_nat i) = IOk (Some (nth i xs 0%Z))) /\
+      (forall i, nlen xs <= i -> iv_get t v i = IOk None).
+Print Assumptions intvec_construct_get.
